@@ -240,7 +240,50 @@ func H_C17_layout(v *V) {
 	}
 }
 
+type c17D struct {
+	O   string `long:"opt" default:"dv" env:"EK"`
+	Q   string `long:"qq"`
+	Pos struct {
+		First string `positional-arg-name:"first"`
+	} `positional-args:"yes"`
+}
+
+// H_C17_desc: a description of arbitrary printable characters (among them
+// the formatting character '%') reaches the help text uncorrupted, beside
+// its default and environment variable.
+func H_C17_desc(v *V) {
+	D := v.String(v.Shape("n"))
+	for i := 0; i < len(D); i++ {
+		v.Assume(D[i] > ' ' && D[i] < 0x7f)
+	}
+	d := &c17D{}
+	p := NewNamedParser("prog", None)
+	p.AddGroup("Application Options", "", d)
+	which := v.Choice(3)
+	want := ""
+	switch which {
+	case 0:
+		p.FindOptionByLongName("opt").Description = "x" + D
+		want = "x" + D + " (default: dv) [$EK]"
+	case 1:
+		p.FindOptionByLongName("qq").Description = "x" + D
+		want = "x" + D + "\n"
+	case 2:
+		p.Args()[0].Description = "x" + D
+		want = "x" + D + "\n"
+	}
+	v.TermWidth(80)
+	p.ParseArgs([]string{})
+	var buf bytes.Buffer
+	p.WriteHelp(&buf)
+	out := buf.String()
+	v.Reach("rendered")
+	v.ObserveStr("help", out)
+	v.Assert(v.Contains(out, want), "the description is printed uncorrupted (with its default and environment variable beside it)")
+}
+
 func init() {
+	vHarnesses["H_C17_desc"] = H_C17_desc
 	vHarnesses["H_C17_wrap"] = H_C17_wrap
 	vHarnesses["H_C17_wrapraw"] = H_C17_wrapraw
 	vHarnesses["H_C17_layout"] = H_C17_layout
